@@ -110,7 +110,9 @@ def build_refs(exe, rng, idx):
 
 
 def gen_run(exe, rng, tier):
-    return WH.run_parallel(exe, rng, 200 if tier == "quick" else 5000, build_refs)
+    # … and whole TCP connections (association created, requests outstanding, connection gone: everything it held is released)
+    return (WH.run_parallel(exe, rng, 200 if tier == "quick" else 5000, build_refs) +
+            WH.run_parallel(exe, rng, 40 if tier == "quick" else 1500, WH.tcp_history))
 
 
 def gen(rng, tier):
